@@ -6,11 +6,13 @@
  *   diag <op> <seed> <failat>      failat = -1: success path; i >= 0: the i-th entropy draw fails
  *     -> CLEAN rc=<r> captured=<bytes> lines=<n> secrets=<k>
  *      | LEAK rc=<r> secret=<label> enc=<raw|hex> window=<off> captured=<bytes> excerpt=<hex of the surrounding output>
+ *   fpprint <printer> <seed>       an explicit print into a temporary FILE*: nothing of the object may reach fds 1/2
  *   hexodd <seed>                  hex_to_bytes on an odd-length hex string holding a key
  */
 #include "sysops.h"
 #include <fcntl.h>
 #include <gmssl/hex.h>
+#include <gmssl/gf128.h>
 
 static int cap_fd = -1, saved1 = -1, saved2 = -1;
 static void cap_begin(void) {
@@ -85,6 +87,33 @@ static void handle(size_t nw, char **w) {
 		cap = cap_end(&n);
 		scan(c, cap, n, rc);
 		free(cap); ob_free(&o);
+	} else if (nw == 3 && !strcmp(w[0], "fpprint")) {
+		/* an explicitly requested print must go to the FILE* the caller designated — and nowhere else: the printer gets a
+		 * temporary file, fds 1 and 2 are captured and must not show the object */
+		FILE *fp = tmpfile(); uint64_t seed = strtoull(w[2], NULL, 10);
+		memset(c, 0, sizeof *c); c->sm = seed * 3 + 1;
+		cap_begin();
+		if (!strcmp(w[1], "tls_secrets_print")) {
+			uint8_t pms[48], cr[32], sr[32], ms[48], kb[96];
+			ctx_bytes(c, pms, 48); ctx_bytes(c, cr, 32); ctx_bytes(c, sr, 32); ctx_bytes(c, ms, 48); ctx_bytes(c, kb, 96);
+			add_secret(c, "pre_master_secret", pms, 48); add_secret(c, "master_secret", ms, 48); add_secret(c, "key_block", kb, 96);
+			rc = tls_secrets_print(fp, pms, 48, cr, sr, ms, kb, 96, 0, 0);
+		} else if (!strcmp(w[1], "gf128_print")) {
+			uint8_t h[16]; gf128_t H;
+			ctx_bytes(c, h, 16); add_secret(c, "ghash-key-H", h, 16);
+			gf128_from_bytes(H, h);
+			rc = gf128_print(fp, 0, 0, "H", H);
+		} else if (!strcmp(w[1], "sm2_key_print")) {
+			make_sm2(c, &c->sm2); add_secret_sm2(c, "sm2-priv", &c->sm2);
+			rc = sm2_key_print(fp, 0, 0, "key", &c->sm2);
+		} else if (!strcmp(w[1], "tls_pre_master_secret_print")) {
+			uint8_t pms[48]; ctx_bytes(c, pms, 48); add_secret(c, "pre_master_secret", pms, 48);
+			rc = tls_pre_master_secret_print(fp, pms, 0, 0);
+		} else { cap = cap_end(&n); free(cap); fclose(fp); printf("ERR unknown printer"); free(c); return; }
+		cap = cap_end(&n);
+		fclose(fp);
+		scan(c, cap, n, rc);
+		free(cap);
 	} else if (nw == 2 && !strcmp(w[0], "hexodd")) {
 		/* a private key typed as hex with one character missing: the import fails, what does it print? */
 		uint8_t key[32], out[64]; char hex[65]; size_t ol = 0, i; uint64_t seed = strtoull(w[1], NULL, 10);
